@@ -476,9 +476,18 @@ func (s *Session) Data(r io.Reader) error {
 	if err != nil {
 		return wrapErr(err)
 	}
+	commitStarted := false
 	defer func() {
 		if err := buf.Remove(); err != nil {
 			s.log.Error("failed to remove buffered body", err)
+		}
+
+		if !commitStarted {
+			// The message was refused before the commit step: the target
+			// deliveries are still open and nobody else will close them
+			// (go-smtp calls Reset, but delivery is nil by then).
+			s.abort(bodyCtx)
+			return
 		}
 
 		// go-smtp will call Reset, but it will call Abort if delivery is non-nil.
@@ -497,6 +506,7 @@ func (s *Session) Data(r io.Reader) error {
 		return wrapErr(err)
 	}
 
+	commitStarted = true
 	if err := s.delivery.Commit(bodyCtx); err != nil {
 		return wrapErr(err)
 	}
@@ -531,9 +541,18 @@ func (s *Session) LMTPData(r io.Reader, sc smtp.StatusCollector) error {
 	if err != nil {
 		return wrapErr(err)
 	}
+	commitStarted := false
 	defer func() {
 		if err := buf.Remove(); err != nil {
 			s.log.Error("failed to remove buffered body", err)
+		}
+
+		if !commitStarted {
+			// The message was refused before the commit step: the target
+			// deliveries are still open and nobody else will close them
+			// (go-smtp calls Reset, but delivery is nil by then).
+			s.abort(bodyCtx)
+			return
 		}
 
 		// go-smtp will call Reset, but it will call Abort if delivery is non-nil.
@@ -552,6 +571,7 @@ func (s *Session) LMTPData(r io.Reader, sc smtp.StatusCollector) error {
 
 	// We can't really tell whether it is failed completely or succeeded
 	// so always commit. Should be harmless, anyway.
+	commitStarted = true
 	if err := s.delivery.Commit(bodyCtx); err != nil {
 		return wrapErr(err)
 	}
